@@ -162,6 +162,17 @@ thread_local! {
     static LOG: RefCell<Vec<String>> = const { RefCell::new(Vec::new()) };
     static REGISTRY: RefCell<BTreeMap<u32, Bind>> = const { RefCell::new(BTreeMap::new()) };
     static LAST_PANIC: RefCell<Option<(String, String)>> = const { RefCell::new(None) };
+    /// The specification's notion of "reads here subscribe": true inside the function of a memo /
+    /// selector / effect, false at top level and inside untrack, component bodies, the callback of
+    /// on(..) and cleanup callbacks. Maintained by the driver alone, independently of the runtime.
+    static SPEC_TRACKING: Cell<bool> = const { Cell::new(false) };
+}
+
+fn with_spec_tracking<T>(on: bool, f: impl FnOnce() -> T) -> T {
+    let prev = SPEC_TRACKING.with(|t| t.replace(on));
+    let r = f();
+    SPEC_TRACKING.with(|t| t.set(prev));
+    r
 }
 
 fn log(s: String) {
@@ -214,7 +225,8 @@ fn read(env: &Env, x: u32, tracked: bool) -> i64 {
         }
         _ => panic!("ILL-FORMED: read of a non-signal"),
     };
-    log(format!("read {x} {v} {}", tracked as u8));
+    let eff = tracked && SPEC_TRACKING.with(|t| t.get());
+    log(format!("read {x} {v} {} {}", tracked as u8, eff as u8));
     v
 }
 
@@ -271,7 +283,7 @@ fn run_body(name: u32, is_effect: bool, env: &Env, body: &Body) -> i64 {
         eval(&env1, &body.ret)
     };
     let v = match &body.on {
-        None => go(),
+        None => with_spec_tracking(true, go),
         Some(deps) => {
             // the real `on(deps, f)` takes a tuple of trackables; it tracks each and runs `f` untracked
             for d in deps {
@@ -280,8 +292,9 @@ fn run_body(name: u32, is_effect: bool, env: &Env, body: &Body) -> i64 {
                     Bind::Read(s) => s.track(),
                     _ => panic!("ILL-FORMED: on() of a non-signal"),
                 }
+                log(format!("track {d} 1"));
             }
-            untrack(go)
+            untrack(|| with_spec_tracking(false, go))
         }
     };
     if is_effect {
@@ -395,21 +408,22 @@ fn exec1(env: &Env, s: &Stmt) -> Env {
         }
         Stmt::Untrack(ss) => {
             untrack(|| {
-                exec(env, ss);
+                with_spec_tracking(false, || exec(env, ss));
             });
             env.clone()
         }
         Stmt::Component(ss) => {
             sycamore_core::component_scope(|| {
-                exec(env, ss);
+                with_spec_tracking(false, || exec(env, ss));
             });
             env.clone()
         }
         Stmt::OnCleanup(l, ss) => {
             let (l, ss, cenv) = (*l, ss.clone(), env.clone());
+            log(format!("reg {l}"));
             on_cleanup(move || {
                 log(format!("cleanup {l}"));
-                exec(&cenv, &ss);
+                with_spec_tracking(false, || exec(&cenv, &ss));
             });
             env.clone()
         }
@@ -438,6 +452,7 @@ fn exec1(env: &Env, s: &Stmt) -> Env {
                 Bind::Read(s) => s.track(),
                 _ => panic!("ILL-FORMED: track of a non-signal"),
             }
+            log(format!("track {x} {}", SPEC_TRACKING.with(|t| t.get()) as u8));
             env.clone()
         }
         Stmt::If(e, a, b) => {
@@ -520,7 +535,18 @@ fn snapshot() -> String {
             }
         }
     }
-    format!("snap n={} | {}", snap.len(), parts.join(" | "))
+    // live nodes reachable from the root scope through `children`
+    let mut reach = 0usize;
+    if let Some(Bind::Handle(root)) = reg.get(&0) {
+        let mut todo = vec![verif::handle_id(*root)];
+        while let Some(id) = todo.pop() {
+            if let Some(n) = by_id.get(&id) {
+                reach += 1;
+                todo.extend(n.children.iter().copied());
+            }
+        }
+    }
+    format!("snap n={} r={} | {}", snap.len(), reach, parts.join(" | "))
 }
 
 fn classify(msg: &str, _file: &str) -> &'static str {
@@ -547,6 +573,7 @@ fn run_scenario(line: &str, out: &mut impl Write) {
     let stmts = p_stmts(&sexpr::parse(line));
     LOG.with(|l| l.borrow_mut().clear());
     REGISTRY.with(|r| r.borrow_mut().clear());
+    SPEC_TRACKING.with(|t| t.set(false));
     let mut lines: Vec<String> = Vec::new();
     let root = create_root(|| {
         let h = use_global_scope();
